@@ -208,6 +208,9 @@ def handle (j : Json) : Except String Json := do
       pure (Json.mkObj [("text", match txt with | some t => jstr t | none => Json.null),
                         ("read", jDB ((txt.bind (expandPercent style)).bind sqliteRead)),
                         ("bind", jDB (some (sqliteBind sv)))])
+  | "group_concat" =>
+      let xs ← (← argArr j "xs").mapM (fun x => match x with | .str t => pure t.toList | _ => throw "xs: strings")
+      pure (jstr (dbGroupConcat (groupConcatArg true (← argOptChars j "sep")) xs))
   | "like" => pure (.bool (likeMatch (← argOptChar j "esc") (← argChars j "pat") (← argChars j "s")))
   | "sql_replace" => pure (jstr (sqlReplace (← argChars j "old") (← argChars j "new") (← argChars j "s")))
   | "like_ast" =>
